@@ -337,3 +337,34 @@ fn c09_protocol_version_constant() {
     assert!(crate::chmux::verif::PROTOCOL_VERSION_PORT_ID == 3);
     kani::cover!(true, "reached");
 }
+
+// ---------------------------------------------------------------------------
+// Frame length limit (stream transports): every port message the sender composes fits the limit the
+// peer derives from the chunk size it advertised.
+
+/// @prop C09 C05 C02 C03
+/// @tier quick
+/// @fn chmux::sender::max_ports_per_message
+/// @fn chmux::cfg::Cfg::max_frame_length
+/// @bounds chunk size advertised by the peer: any u32 in 4..=u32::MAX-16 (larger values make max_frame_length panic by contract); available credits: any u32
+/// @outside the batching loop of Sender::connect itself (async); the byte layout of a PortData message (6 header bytes + 8 per port with ids) is established by the c09_enc_port_data harnesses
+/// the number of ports Sender::connect puts into one message never costs more than the available credits or the peer's chunk size (4 per port), its frame (6 + 8 per port, ids included) never exceeds the frame length limit the peer configures from the chunk size it advertised, and it is at least one whenever 4 credits are available (progress)
+#[kani::proof]
+#[kani::unwind(2)]
+fn c09_ports_per_message_fit_frame_limit() {
+    let chunk: u32 = kani::any();
+    let credits: u32 = kani::any();
+    kani::assume(chunk >= 4 && chunk <= u32::MAX - 16);
+    let n = crate::chmux::verif::sender::max_ports_per_message(chunk as usize, credits) as u64;
+    let mut cfg = crate::chmux::Cfg::default();
+    cfg.chunk_size = chunk;
+    let limit = cfg.max_frame_length() as u64;
+    assert!(4 * n <= credits as u64);
+    assert!(4 * n <= chunk as u64);
+    assert!(6 + 8 * n <= limit);
+    if credits >= 4 {
+        assert!(n >= 1);
+    }
+    kani::cover!(n >= 2 && 6 + 8 * (n + 1) > limit, "frame limit is the binding bound");
+    kani::cover!(n >= 1 && 4 * (n + 1) > credits as u64, "credits are the binding bound");
+}
